@@ -114,7 +114,9 @@ def choose_contracts(tier='quick'):
     shapes = [((1,), 2, ('k',)), ((2,), 1, ('k',)), ((3,), 1, ()),
               ((1, 1), 1, ('k',)), ((2, 1), 1, ())]
     if tier != 'quick':
-        shapes += [((3,), 1, ('k',)), ((2, 2), 1, ()), ((1, 2), 1, ('k',))]
+        # (three candidates with a keyword argument need > 5000 paths: not
+        # decidable within the per-function wall-clock budget, left out)
+        shapes += [((2, 2), 1, ()), ((1, 2), 1, ('k',))]
     out = [choose_contract(sh, npos, keys) for sh, npos, keys in shapes]
     out.append(choose_contract((2,), 1, (), method=True))
     return out
